@@ -85,12 +85,16 @@ class StringConcatLoopRule(MultiLanguageLintRule):
         return with_parsed_python(
             context,
             self._violation_builder,
-            lambda tree: self._analyze_python_string_concat(tree, context),
+            lambda tree: self._analyze_python_string_concat(tree, context, config),
         )
 
-    def _analyze_python_string_concat(self, tree: Any, context: BaseLintContext) -> list[Violation]:
+    def _analyze_python_string_concat(
+        self, tree: Any, context: BaseLintContext, config: PerformanceConfig
+    ) -> list[Violation]:
         """Analyze parsed Python AST for string concatenation in loops."""
         violations_raw = self._python_analyzer.find_violations(tree)
+        if config.report_each_concat:
+            return self._build_violations(violations_raw, context)
         violations_deduped = self._python_analyzer.deduplicate_violations(violations_raw)
         return self._build_violations(violations_deduped, context)
 
@@ -111,6 +115,8 @@ class StringConcatLoopRule(MultiLanguageLintRule):
             return []
 
         violations_raw = self._typescript_analyzer.find_violations(root_node)
+        if config.report_each_concat:
+            return self._build_violations(violations_raw, context)
         violations_deduped = self._typescript_analyzer.deduplicate_violations(violations_raw)
 
         return self._build_violations(violations_deduped, context)
